@@ -269,6 +269,17 @@ def unframe (maxLen : Nat) (bs : Bytes) : Except Err (Option (Bytes × Bytes)) :
   if (bs.drop 4).length < n then .ok none else
   .ok (some ((bs.drop 4).take n, (bs.drop 4).drop n))
 
+/-- Split a byte stream into frames by repeated `unframe` (what the reading half of `Connect::io`
+does with the bytes it is given, however they were partitioned into reads); returns the complete
+frames and the unconsumed rest.  `fuel` bounds the number of frames. -/
+def splitFrames (maxLen : Nat) : Nat → Bytes → List Bytes → Except Err (List Bytes × Bytes)
+  | 0, bs, acc => .ok (acc.reverse, bs)
+  | fuel + 1, bs, acc =>
+    match unframe maxLen bs with
+    | .error e => .error e
+    | .ok none => .ok (acc.reverse, bs)
+    | .ok (some (f, rest)) => splitFrames maxLen fuel rest (f :: acc)
+
 /-- `MAX_MSG_LENGTH`: the header budget on top of `chunk_size` in `max_frame_length` -/
 def maxMsgLength : Nat := 16
 
